@@ -298,6 +298,13 @@ Example C19_example_erased :
 Proof. exact P_example_erased. Qed.
 Print Assumptions C19_example_erased.
 
+(* a move hands buffer AND request to the target: every member call on the target gives what it would have given on the source *)
+Theorem C19_future_move_state : forall (D : Type) (cfg : c19_cfg) (k : c19_bkind) (v : D) (f : c19_fut D),
+  snd (c19_fstep cfg k v C19_Move f) = f /\ snd (c19_fstep cfg k v C19_MoveAssign f) = f /\
+  forall o, c19_fstep cfg k v o (snd (c19_fstep cfg k v C19_Move f)) = c19_fstep cfg k v o f.
+Proof. exact P_future_move_state. Qed.
+Print Assumptions C19_future_move_state.
+
 (* PseudoFuture (Communication<No_Comm>): same specification, ready at once *)
 Theorem C19_pseudofuture : forall (D : Type) (deqb : D -> D -> bool), (forall d, deqb d d = true) ->
   forall (v : D) (valid0 : bool) (ops : list c19_fop), Forall (fun o => In o [C19_Valid; C19_Ready; C19_Wait; C19_Get]) ops ->
